@@ -538,6 +538,9 @@ def sections(tier):
          ("plumbing2", "checks.c02", "sec_plumbing2", {}), ("batch-options", "checks.c02", "sec_batch_options", {})]
     for order in (0, 1, 3):
         S.append((f"sampling-o{order}", "checks.c02", "sec_sampling", {"order": order, "corner_safe": False}))
+        # unrotated molecules, concrete boxes: everything is linear, so "no interpolation needed" shortcuts with tolerances / rounding are decided quickly
+        for shp in ((3, 3, 3), (2, 3, 4)):
+            S.append((f"plain-identity-o{order}-{shp}", "checks.c02", "sec_sampling", {"order": order, "corner_safe": False, "shape": shp, "quat": (0, 0, 0, 1)}))
         # corner_safe: rule with free R and symbolic shape, per free axis
         shapes = [(1, 2, 2), (2, 3, 6)] if quick(tier) else [(1, 2, 2), (2, 3, 6), (3, 4, 12), (4, 4, 7), (3, 3, 3), (5, 4, 4)]
         for shp in shapes:
